@@ -91,6 +91,12 @@ func ruleC09_1(c *Ctx) {
 		c.Fail("C09.1", "row=lookup-reaches-hit", "RoundTrip reaches the hit decision when gate and store reads succeed", c.P.ShortName(root)+": the hit handler call is dead under {gate=T, store errors nil}")
 	}
 	// miss path: storable origin response must be stored
+	nMiss := 0
+	defer func() {
+		if nMiss == 0 {
+			c.Fail("C09.1", "row=miss-stores", "a function on the exchange fetches from the origin and stores the answer", "no function reachable from RoundTrip both calls the origin and the storing function: nothing is ever stored")
+		}
+	}()
 	for fn := range c.A.Reach {
 		hasUp := false
 		hasStore := false
@@ -109,6 +115,7 @@ func ruleC09_1(c *Ctx) {
 		if !hasUp || !hasStore || fn == c.A.F("validationHandler") {
 			continue
 		}
+		nMiss++
 		pr := c.An.Prune(fn, func(a *Atom) (bool, bool) {
 			switch a.Key {
 			case "rq.only-if-cached":
